@@ -1,7 +1,7 @@
 """C13 - sequence library: kind preservation and stability/first-occurrence tables (static clauses only)."""
 import re
 from .core import (CheckError, find_match, arm_region, pat_str, strip_ref, origins, only_when, pat_paths,
-                   Registry, op_local)
+                   Registry, op_local, bool_switches)
 
 META = {
     'level': 'other',
@@ -243,6 +243,53 @@ def run(F, rep, tier):
             rep.ok('R13.7', 'windowed', 'an exit without any window exists (short input)')
         else:
             rep.viol('R13.7', 'windowed|no-empty-exit', 'every path through windowed builds at least one window: for an input shorter than n the result is a single short window instead of no window', wb.loc(min(snaps)))
+    # ---------------- R13.8
+    rep.rule('R13.8', 'take / drop with a predicate stop asking at the first element that fails it: in take_while_inner and drop_while_inner the '
+             'predicate call is not reachable again from the "predicate was false" edge (the kept tail is never tested: side effects, errors on '
+             'elements the predicate is undefined on)')
+    for fn8 in ('take_while_inner', 'drop_while_inner'):
+        cand = [p_ for p_ in F.fns if p_ == fn8 or p_.endswith('::' + fn8)]
+        if not cand:
+            rep.error('R13.8', fn8 + ' missing')
+            continue
+        b8 = F.body(cand[0])
+        preds = [c for c in b8.calls if c.target.endswith('Func>::run1') or c.target.endswith('::run1')]
+        tr = [c for c in b8.calls if c.target.endswith('Obj::truthy')]
+        if not preds or not tr:
+            rep.note('R13.8: %s does not call the predicate through run1 + truthy (idiom not recognised): not decided' % fn8)
+            rep.ok('R13.8', fn8 + ' (idiom not recognised)', 'not decided')
+            continue
+        again = False
+        for t_ in tr:
+            for (sw, tt, ff) in bool_switches(b8, t_.dest[0]):
+                if any(p_.bb in b8.reachable_from(ff) for p_ in preds):
+                    again = True
+        if again:
+            rep.viol('R13.8', '%s|predicate-after-failure' % fn8, '%s keeps calling the predicate after it has returned false once: `[1, 2, 5, \'x\'] drop (< 3)` raises on \'x\', counters in the predicate run too often' % fn8, preds[0].loc())
+        else:
+            rep.ok('R13.8', fn8, 'the predicate is not called again after its first false')
+    # ---------------- R13.9
+    rep.rule('R13.9', 'fold and scan combine as f(accumulator, element): in Fold::run and Scan::run the first operand of every call of the combining '
+             'function carries the previous result (or the seed / first element) and the second operand comes only from the sequence iterator')
+    for ty9 in ('Fold', 'Scan'):
+        fn9 = '<%s as core::Builtin>::run' % ty9
+        if not F.has_fn(fn9):
+            rep.error('R13.9', fn9 + ' missing')
+            continue
+        b9 = F.body(fn9)
+        r2s = [c for c in b9.calls if c.target.endswith('Func>::run2') and len(c.args) >= 4]
+        if not r2s:
+            rep.error('R13.9', '%s: no call of the combining function found' % fn9)
+        for k9, c in enumerate(r2s):
+            o_first = origins(b9, c.args[2], passthru=('branch',))
+            o_second = origins(b9, c.args[3], passthru=('branch',))
+            fb1 = any(o[0] == 'call' and o[1].endswith('run2') for o in o_first)
+            fb2 = any(o[0] == 'call' and o[1].endswith('run2') for o in o_second) or any(o[0] == 'payload' and o[1] in ('Three', 'Two') for o in o_second)
+            el2 = any(o[0] == 'call' and o[1].endswith('::next') for o in o_second)
+            if fb1 and el2 and not fb2:
+                rep.ok('R13.9', '%s combine #%d' % (ty9, k9), 'f(acc, element)')
+            else:
+                rep.viol('R13.9', '%s|combine#%d|operand-order' % (ty9, k9), '%s::run calls the combining function with the element first and the accumulator second (first operand feedback=%s; second operand from iterator=%s, feedback=%s): `[1, 2, 3] %s - from 10` is wrong for every non-commutative function' % (ty9, fb1, el2, fb2, ty9.lower()), c.loc())
     rep.undecided += ['f(xs) == reference(xs) for map/filter/partition/flat_map/flatten/zip/window/group/fold/scan/... (value equations)',
                       'the complete enumeration order of permutations/combinations/subsequences beyond their first element']
     return META
